@@ -511,6 +511,30 @@ def r19c(R):
             'in the next run', path=path_text(p) if p else None)
 
 
+@rule('R19.e', ('C19',), 'the values collected for the next print / printf '
+      'and the separator state belong to one VM / one sink object', floor=2,
+      decides='what a job prints is built from its own values only: two jobs '
+              '(a background job and a foreground one) never see each '
+              "other's pending values")
+def r19e(R):
+    A = R.A
+    from .c17 import production_impls, shared_mutable_attrs, shared_state_selfcheck
+    shared_state_selfcheck(A)
+    classes = [A.cls(VMIO, 'VmIo')] + list(
+        production_impls(A, A.cls('bardolph.lib.i_lib', 'Output')))
+    for c in classes:
+        bad = shared_mutable_attrs(c)
+        R.check(c.methods.get('__init__') or next(iter(c.methods.values())),
+                '%s: containers changed through self are bound per instance'
+                % c.name, not bad,
+                '%s.%s is bound once in the class body and changed in place '
+                'through self: every VM shares the one list, so the values of '
+                'two jobs that run at the same time are mixed and a value left '
+                'by one job is printed by the next'
+                % (c.name, bad[0][0] if bad else ''),
+                line=getattr(bad[0][2], 'lineno', 0) if bad else 0)
+
+
 @rule('R19.d', ('C19',), 'printf escapes and argument order; PRINT / '
       'PRINT_END; sink separator logic', floor=5,
       decides='printf fills the format as str.format would, \\n means a line '
